@@ -127,6 +127,31 @@ def step (line : String) : String :=
     match snappyDecode (unhex bs) with
     | some out => "ok " ++ toHex out
     | none => "err"
+  | ["meta", file] =>
+    match readMetaData (unhex file) with
+    | .ok f => "ok " ++ showFMD f
+    | .error .err => "err"
+    | .error .panic => "panic"
+  | ["pageheaders", file] =>
+    match readMetaData (unhex file) with
+    | .ok f => showPHdrs (pageHeaders (unhex file) f)
+    | .error .err => "err"
+    | .error .panic => "panic"
+  | ["pageheaders-at", file, o, n] =>
+    match o.toInt?, n.toInt? with
+    | some o, some n => showPHdrs (pageHeadersAt (unhex file) o n)
+    | _, _ => "bad-op"
+  | ["walk", cols, mx, file, tab] =>
+    -- independent walk: footer as parsed by the validator, page starts and value counts per chunk
+    match parseCols cols, mx.toNat? with
+    | some cols, some mx =>
+      match parseFile (parseDecomp tab) cols mx (unhex file) with
+      | .error e => "invalid " ++ e.replace " " "_"
+      | .ok f => "ok " ++ showFMD f.fmd ++ " pages=" ++ showWalk f ++ " headers=" ++
+          (let hs := (f.rowGroups.flatMap fun g => g.chunks.flatMap fun c => c.pages).map fun p =>
+             s!"0:{p.uncompressedLen}:{p.compressedLen}:{p.numValues};0;3;3;{showStatsFields p.stats}"
+           if hs.isEmpty then "-" else ",".intercalate hs)
+    | _, _ => "bad-op"
   | ["pack", w, g] =>
     match w.toNat? with
     | some w => toHex (pack w (unhex g))
